@@ -41,6 +41,17 @@ theorem absOwn_copy (s : CState) (h : HInv s) (i : Nat) (o : Own) (hs : s.slots 
     simp [absOwn, AVal.copyOf, srcBuf, hb]
 
 
+/-- a readable record abstracts to the live value holding exactly the cells a copy reads; any other record is
+    a moved-from object -/
+theorem absOwn_readable (s : CState) (h : HInv s) (i : Nat) (o : Own) (hs : s.slots i = some o) :
+    absOwn s.heap o = if o.readable then .live (srcBuf s o) else .moved o.size := by
+  obtain ⟨n, p⟩ := o
+  cases p with
+  | none => by_cases e : n = 0 <;> simp [absOwn, Own.readable, srcBuf, zeros, e]
+  | some a =>
+    obtain ⟨buf, hb, hl⟩ := h.live i n a hs
+    simp [absOwn, Own.readable, srcBuf, hb]
+
 theorem abs_alloc (s : CState) (h : HInv s) (i n : Nat) (buf : List Nat) (hs : s.slots i = none) :
     abs ({ s with heap := upd s.heap s.next (some buf), next := s.next + 1,
                   slots := upd s.slots i (some ⟨n, some s.next⟩) } : CState) = upd (abs s) i (some (.live buf)) := by
@@ -230,5 +241,36 @@ theorem refine_step (s : CState) (h : HInv s) (op : Op) : abs (cstep s op) = ast
         by_cases hk : k < buf.length
         · simp only [hk, if_true]; exact abs_write s h i n a buf _ hs
         · simp [hk]
+  | convert dst src =>
+    simp only [cstep, astep]
+    cases hd : s.slots dst with
+    | some d => simp [abs_eq, hd]
+    | none =>
+      cases hs : s.slots src with
+      | none => simp [abs_eq, hd, hs]
+      | some o =>
+        simp only [abs_eq s dst, abs_eq s src, hd, hs, Option.map_none, Option.map_some]
+        rw [absOwn_readable s h src o hs]
+        by_cases hr : o.readable
+        · simp only [hr, if_true]; exact abs_alloc s h dst o.size (srcBuf s o) hd
+        · simp [hr]
+  | dumpLoad dst src =>
+    simp only [cstep, astep]
+    cases hs : s.slots src with
+    | none => simp [abs_eq, hs]
+    | some o =>
+      simp only [abs_eq s src, hs, Option.map_some]
+      rw [absOwn_readable s h src o hs]
+      by_cases hr : o.readable
+      · simp only [hr, if_true]
+        cases hd : s.slots dst with
+        | none => exact abs_alloc s h dst o.size (srcBuf s o) hd
+        | some d =>
+          simp only []
+          rw [copyAssign_eq s h dst d hd]
+          have h' := inv_release s h dst d hd
+          exact (abs_alloc _ h' dst o.size (srcBuf s o) (by simp)).trans
+            (by rw [abs_release s h dst d hd, upd_upd_same])
+      · simp [hr]
 
 end Covfie.Heap
